@@ -315,6 +315,11 @@ class Instruction(Constructor, metaclass=InsMeta):
     isa if they have an isa attribute.
     """
 
+    # Registers which this instruction reads / writes without having them as
+    # an operand, for example cl in the x86 instruction 'shl rax, cl':
+    implicit_uses = ()
+    implicit_defs = ()
+
     def __init__(self, *args, **kwargs):
         """Base instruction constructor.
 
@@ -332,8 +337,8 @@ class Instruction(Constructor, metaclass=InsMeta):
 
         # TODO: some instructions, like call, use several registers.
         # Probably this can be handled better:
-        self.extra_uses = []
-        self.extra_defs = []
+        self.extra_uses = list(self.implicit_uses)
+        self.extra_defs = list(self.implicit_defs)
 
         # Set several properties:
         for k, v in kwargs.items():
